@@ -19,6 +19,7 @@ import json
 import os
 import random
 import re
+import shutil
 import subprocess
 import time
 
@@ -47,7 +48,8 @@ RULE = ("(c) every type of the Lean-enumerated zoo of depth 0 (31 base types x 4
         "traits/concepts (the traits in both forms) over a 50-class zoo, its cv/ref/"
         "pointer/array variants and a zoo sample, 22 relational traits/concepts + common_type of 1, 2 and 3 types/common_reference/invoke_result "
         "over all ordered pairs of a relation list; the definitions of all traits are re-extracted from the preprocessed headers "
-        "(g++ and clang++ branches) and the table theorems re-checked; (b) all 32 numeric_limits members x 19 arithmetic types x 4 cv; "
+        "(g++ and clang++ branches) and the table theorems re-checked; a seeded sample of 240 (thorough: 1200) trait and limits rows is "
+        "compiled a second time with clang++, which takes the other #if branch of eight traits; (b) all 32 numeric_limits members x 19 arithmetic types x 4 cv; "
         "(a) ratio<n,d> over a small grid and near-overflow values, the four arithmetic aliases and six comparisons over "
         "all ordered pairs of a small ratio list, seeded near-overflow pairs and six targeted families (common denominator with a "
         "cancelling numerator, Bezout-type cancellation n1/a - n2/b = 1/(ab) with products near 2^93, large integer parts of "
@@ -110,7 +112,7 @@ LEVEL_TEXT = ("PROVED in Lean 4 for all inputs (coverage.theorems): (c) each of 
               "has_virtual_destructor, has_unique_object_representations, is_(trivially_|nothrow_)constructible, "
               "is_(trivially_)assignable, is_trivially_destructible, is_enum/is_class/is_union) is, in both forms, the builtin "
               "of its own name applied to all its template arguments - except is_trivially_constructible, which drops Args... "
-              "(known finding; _partial + _counterexample) -, the same for the clang-only #if branches, no other builtin is "
+              "(known finding; _partial + _counterexample) -, the same for the clang-only #if branches (also executed on a sample: the harness is compiled a second time with clang++), no other builtin is "
               "called anywhere, every _v variable agrees with its class template, and the 17 default/copy/move/swappable "
               "family members pass exactly the argument types [meta.unary.prop] names for every well-formed type.  TIED TO THE "
               "SOURCE on every run by a generated "
@@ -128,7 +130,7 @@ LEVEL_NOTE = ("Trusted: Lean kernel + propext/Classical.choice/Quot.sound; fidel
               "arguments, which formula), not the answers - those are differential testing, not proof; traits defined by "
               "SFINAE probes or partial specialisations the extractor does not read (is_convertible, is_base_of, "
               "is_destructible, is_nothrow_*, is_swappable_with, invoke_result, common_type, the concepts with "
-              "requires-expressions) are observed only.  The clang++ #if branches are tied but never executed.  "
+              "requires-expressions) are observed only.  The clang++ #if branches are tied for every trait and executed on a seeded sample of rows only.  "
               "Floating-point numeric_limits members are compared with std only; of the integer members is_specialized, "
               "is_integer, is_exact, radix, is_bounded and the zero-valued floating-point members are compared only.  "
               "numeric_limits<bool>::traps differs from libstdc++ (known finding, implementation-defined member).")
@@ -507,10 +509,10 @@ def parse_items(s):
 
 
 class Item:
-    __slots__ = ("case", "impl", "std", "model", "spec", "call", "skip")
+    __slots__ = ("case", "impl", "std", "model", "spec", "call", "skip", "cc")
 
     def __init__(self, case):
-        self.case, self.call, self.skip = case, None, False
+        self.case, self.call, self.skip, self.cc = case, None, False, ""
         self.impl = self.std = self.model = self.spec = ""
 
 
@@ -598,8 +600,9 @@ def make_items(ctx, cases):
 ERR_RE = re.compile(r"^(\S+?):(\d+):\d+:\s+(required from here|error: .*)$")
 
 
-def compile_part(ctx, part_no, rows, items, repo):
+def compile_part(ctx, part_no, rows, items, repo, cxx=None):
     """Compile and run one part.  Returns (outputs {idx: (impl, std)}, broken [(idx, error text)]), or raises."""
+    cxx = cxx or lib.CXX
     inc = os.path.join(lib.BUILD, "c15_%s_p%d.inc" % (ctx.run_id, part_no))
     exe = os.path.join(lib.BUILD, "c15_%s_p%d" % (ctx.run_id, part_no))
     broken = []
@@ -607,7 +610,7 @@ def compile_part(ctx, part_no, rows, items, repo):
     for _attempt in range(6):
         with open(inc, "w") as f:
             f.write("\n".join(items[i].call for i in rows) + "\n")
-        cmd = [lib.CXX] + CXXSTD + ["-I", os.path.join(repo, "include"), "-DC15_INC=\"%s\"" % inc,
+        cmd = [cxx] + CXXSTD + ["-I", os.path.join(repo, "include"), "-DC15_INC=\"%s\"" % inc,
                                     os.path.join(lib.VERIF, HARNESS), "-o", exe]
         rc, o, e = lib.sh(cmd, timeout=1800)
         if rc == 0:
@@ -797,6 +800,38 @@ def run(ctx, replay=None):
 
     fails = evaluate_items(items)
 
+    # clang leg: eight traits take another `#if` branch under clang++ (__is_integral, __is_member_pointer, __is_scalar,
+    # __is_object, __is_trivially_destructible, ...).  A seeded sample of the trait and limits rows is compiled a second
+    # time with clang++ (against the same libstdc++) and compared in the same way.  The leg is an extra: when clang++ is
+    # missing or chokes on something outside etl it is recorded in the notes, never a machinery error.
+    clang = shutil.which("clang++-16") or shutil.which("clang++")
+    clang_info = {"compiler": clang, "rows": 0}
+    if clang:
+        pool = [i for i in live if i not in {b[0] for b in broken_rows}
+                and items[i].case.lines[0].split(" ")[0] in ("ut", "bt", "d", "db", "lim", "misc")]
+        pick_c = pool if replay else random.Random(ctx.seed + 7).sample(pool, min(len(pool), 240 if ctx.tier == "quick" else 1200))
+        try:
+            n_c = max(1, min(lib.NPROC, len(pick_c) // 60 + 1))
+            with cf.ThreadPoolExecutor(max_workers=lib.NPROC) as ex:
+                futs = [ex.submit(compile_part, ctx, 900 + k, pick_c[k::n_c], items, repo, clang) for k in range(n_c)]
+                res = [f.result() for f in futs]
+            citems = []
+            for outs_c, broken_c in res:
+                for idx, (i_, s_) in outs_c.items():
+                    c = Item(items[idx].case)
+                    c.call, c.model, c.spec, c.impl, c.std, c.cc = items[idx].call, items[idx].model, items[idx].spec, i_, s_, "clang++"
+                    citems.append(c)
+                for idx, err, etl_side in broken_c:
+                    if etl_side:
+                        broken_rows.append((idx, "[compiled by clang++] " + err, True))
+                    else:
+                        ctx.notes.append("clang leg: row dropped (error outside etl): %s" % items[idx].case.lines[0])
+            clang_info["rows"] = len(citems)
+            fails += evaluate_items(citems)
+        except (lib.MachineryError, subprocess.SubprocessError, OSError) as e:
+            ctx.notes.append("clang leg not run: %s" % str(e)[:300])
+            clang_info["error"] = str(e)[:300]
+
     # negative probes: where model and spec agree on "ill-formed" the harness does not instantiate the alias (it could not
     # compile); observe on a sample, each in a translation unit of its own, that tetl really rejects the instantiation
     cand = []
@@ -900,7 +935,7 @@ def run(ctx, replay=None):
                        "spec": "%s=%s" % (key, p), "std": "%s=%s" % (key, s),
                        "theorems": THEOREMS.get(ln.split(" ")[0], []), "lean_error": proof_broken,
                        "source": lib.source_hashes(SOURCES), "failing_input_found": kind == "R3"}, found=(kind == "R3"))
-        log("  %s: %s  impl=%s model=%s spec=%s std=%s" % (ln, key, i, m, p, s))
+        log("  %s: %s  impl=%s model=%s spec=%s std=%s%s" % (ln, key, i, m, p, s, "   [harness compiled by clang++]" if it.cc else ""))
     for n_acc, (ln, op) in enumerate(accepted):
         if n_acc >= 3:
             log("  (%d further ill-formed instantiations accepted)" % (len(accepted) - 3))
@@ -970,6 +1005,7 @@ def run(ctx, replay=None):
         "compile_wall_s": round(compile_s, 1),
         "known_findings_replayed": dict(ctx.known_hits),
         "generated": gen_info,
+        "clang_leg": clang_info,
         "source_hashes": lib.source_hashes(SOURCES),
         "notes": ctx.notes,
         "unproved_observed": UNPROVED_OBSERVED,
